@@ -8,6 +8,7 @@
  *   subst <lo> <hi>          one case per position: all 255 substitute values are tried in-process
  *   edit <pos> <ndel> <ins>  one case: delete ndel bytes at pos, insert ins
  *   file <blob>              one case: the blob as the whole file
+ *   retry <0|1>              adv mode: a failed zck_read_lead / zck_read_header is followed by zck_clear_error and a second call
  *   allocfail <0|1>          subst cases additionally try every substitute with each single allocation of the open failing
  *                            (allocator seam); reported as aopened=<value>:<k>,... and allocs=<allocations of a clean open>
  * output per case:
@@ -23,8 +24,18 @@ typedef struct {
     int adv;
     int pin_type; blob pin_digest; long pin_len; int have_pin_type, have_pin_digest, have_pin_len, pin_late;
     int allocfail;
+    int retry;          /* a caller that answers a failed step with zck_clear_error() and calls the step again (healthy allocator) */
     ocase *cases; int n;
 } octx;
+
+static int step(zckCtx *zck, octx *c, bool (*fn)(zckCtx *)) {
+    int ok = fn(zck);
+    if(!ok && c->retry) {
+        env_alloc_on = 0;
+        if(zck_clear_error(zck)) ok = fn(zck);
+    }
+    return ok;
+}
 
 static int try_open(int fd, octx *c, char *msg, size_t msgn) {
     zckCtx *zck = zck_create();
@@ -39,14 +50,14 @@ static int try_open(int fd, octx *c, char *msg, size_t msgn) {
         ok = zck_init_adv_read(zck, fd);
         /* late=1: the caller sets its pins between reading the lead and reading the header */
         int lead_ok = 1;
-        if(ok && c->pin_late) lead_ok = zck_read_lead(zck);
+        if(ok && c->pin_late) lead_ok = step(zck, c, zck_read_lead);
         if(ok && !lead_ok) { env_alloc_on = 0; if(msg) snprintf(msg, msgn, "%s", zck_get_error(zck)); zck_free(&zck); return 0; }
         if(ok && c->have_pin_type) ok = zck_set_ioption(zck, ZCK_VAL_HEADER_HASH_TYPE, c->pin_type);
         if(ok && c->have_pin_digest)
             ok = zck_set_soption(zck, ZCK_VAL_HEADER_DIGEST, (char *)c->pin_digest.p, c->pin_digest.n);
         if(ok && c->have_pin_len) ok = zck_set_ioption(zck, ZCK_VAL_HEADER_LENGTH, c->pin_len);
         if(!ok) die("pins refused on base configuration: %s", zck_get_error(zck));
-        ok = c->pin_late ? zck_read_header(zck) : (zck_read_lead(zck) && zck_read_header(zck));
+        ok = c->pin_late ? step(zck, c, zck_read_header) : (step(zck, c, zck_read_lead) && step(zck, c, zck_read_header));
     }
     env_alloc_on = 0;
     if(msg) snprintf(msg, msgn, "%s", zck_get_error(zck));
@@ -129,6 +140,7 @@ int cmd_openenum(FILE *job, FILE *out) {
         if(n == 0) { free(t); free(line); continue; }
         if(!strcmp(t[0], "mode")) c.adv = !strcmp(t[1], "adv");
         else if(!strcmp(t[0], "allocfail")) c.allocfail = atoi(t[1]);
+        else if(!strcmp(t[0], "retry")) c.retry = atoi(t[1]);
         else if(!strcmp(t[0], "base")) c.base = blob_arg(t[1]);
         else if(!strcmp(t[0], "pin")) {
             const char *v;
